@@ -120,6 +120,8 @@ impl TTLTicker {
                     }
                     has_not_expired
                 });
+                #[cfg(cached_verif)]
+                crate::verif_rt::hook::event("sweep_done", "", &[shard_index as i64]);
 
                 if !keep_running.load(Ordering::Acquire) {
                     info!("Shutting down TTLTicker");
@@ -128,6 +130,21 @@ impl TTLTicker {
                 }
             }
         });
+    }
+}
+
+/// Read-only accessors used by the model-checking harness in /verif (never compiled without `--cfg cached_verif`).
+#[cfg(cached_verif)]
+impl TTLTicker {
+    /// (shard, key id, expiry) of every entry of the expiry index.
+    pub(crate) fn verif_snapshot(&self) -> Vec<(usize, KeyId, ExpireAfter)> {
+        let mut entries = Vec::new();
+        for (shard_index, shard) in self.shards.iter().enumerate() {
+            for (key_id, expire_after) in shard.read().iter() {
+                entries.push((shard_index, *key_id, *expire_after));
+            }
+        }
+        entries
     }
 }
 
